@@ -567,3 +567,13 @@ class Sym:
             st["<value>"] = self._norm(st, env).norm(s)
             out.append((g, st, env))
         return out
+
+
+def r_max(a, b):
+    x, y = sorted([str(_r(a)), str(_r(b))])
+    return fn_atom("max", x, y)
+
+
+def r_min(a, b):
+    x, y = sorted([str(_r(a)), str(_r(b))])
+    return fn_atom("min", x, y)
